@@ -93,8 +93,21 @@ class AsyncIORuntime(SubscriptionRuntime):
 
             async def _await_values() -> Iterable[T]:
                 futures = [asyncio.ensure_future(p) for p in pending]
+                gathered = asyncio.gather(*futures)
+                # (the shield detaches `gathered` when this coroutine is
+                # cancelled: its outcome is then retrieved here, not logged
+                # as "exception was never retrieved")
+                gathered.add_done_callback(_retrieve)
                 try:
-                    results = await asyncio.gather(*futures)
+                    # `shield`: when this gather is itself cancelled (a
+                    # sibling aborted the request), `asyncio.gather` would
+                    # forward the cancellation to members which have been
+                    # scheduled but did not run their first step yet. A
+                    # coroutine cancelled before it is entered never runs its
+                    # body, so the `else_` handler of `map_value` (the end
+                    # hook of a started field) would be lost. The members are
+                    # cancelled below instead, once they have been entered.
+                    results = await asyncio.shield(gathered)
                 except BaseException:
                     # `asyncio.gather` leaves the other members running when
                     # one of them fails: cancel them, the outcome of this
@@ -179,6 +192,11 @@ class AsyncIORuntime(SubscriptionRuntime):
             return wrapped
 
         return func
+
+
+def _retrieve(future: "asyncio.Future[Any]") -> None:
+    if not future.cancelled():
+        future.exception()
 
 
 def _thread_call(call: Callable[[], T]) -> Callable[[], T]:
